@@ -98,8 +98,13 @@ func (g *GlobalTransactionManager) Commit(ctx context.Context, gtr *GlobalTransa
 		bf.Wait()
 	}
 
-	if err != nil || bf.Err() != nil {
-		lastErr := errors.Wrap(err, bf.Err().Error())
+	if err == nil {
+		// no request failed, but the retry budget or the caller's context may have ended
+		// before (or while) the request was sent
+		err = bf.Err()
+	}
+	if err != nil {
+		lastErr := errors.Wrap(err, "send global commit request failed")
 		log.Warnf("send global commit request failed, xid %s, error %v", gtr.Xid, lastErr)
 		return lastErr
 	}
